@@ -9,43 +9,43 @@ package keystore
 //@ spec func sameBytes(a []byte, b []byte) bool = len(a) == len(b) && (forall j int :: 0 <= j && j < len(a) ==> a[j] == b[j])
 
 //@ func putMasterKeyParams
-//@   assert-at call Put#1 private-parameters-under-mpriv: arg1 == masterPrivKeyName && arg2 == privParams
-//@   assert-at call Put#2 public-parameters-under-mpub: arg1 == masterPubKeyName && arg2 == pubParams
+//@   assert-at call Put#1 private-parameters-under-mpriv: arg1 == masterPrivKeyName && arg2 == old(privParams)
+//@   assert-at call Put#2 public-parameters-under-mpub: arg1 == masterPubKeyName && arg2 == old(pubParams)
 //@ func fetchMasterKeyParams
 //@   assert-at call Get#1 public-parameters-from-mpub: arg1 == masterPubKeyName
 //@   assert-at call Get#2 private-parameters-from-mpriv: arg1 == masterPrivKeyName
 //@   assert-at return#-1 public-then-private-as-stored: sameBytes(result0, lastresult("Get#1")) && (lastresult("Get#2") != nil ==> sameBytes(result1, lastresult("Get#2")))
 
 //@ func putMasterHDKeys
-//@   assert-at call Put#1 root-private-ciphertext-under-mhdpriv: arg1 == masterHDPrivName && arg2 == masterHDPrivEnc
-//@   assert-at call Put#2 root-public-ciphertext-under-mhdpub: arg1 == masterHDPubName && arg2 == masterHDPubEnc
+//@   assert-at call Put#1 root-private-ciphertext-under-mhdpriv: arg1 == masterHDPrivName && arg2 == old(masterHDPrivEnc)
+//@   assert-at call Put#2 root-public-ciphertext-under-mhdpub: arg1 == masterHDPubName && arg2 == old(masterHDPubEnc)
 //@ func fetchMasterHDKeys
 //@   assert-at call Get#1 root-private-ciphertext-from-mhdpriv: arg1 == masterHDPrivName
 //@   assert-at call Get#2 root-public-ciphertext-from-mhdpub: arg1 == masterHDPubName
 //@   assert-at return#-1 private-then-public-as-stored: (lastresult("Get#1") != nil ==> sameBytes(result0, lastresult("Get#1"))) && (lastresult("Get#2") != nil ==> sameBytes(result1, lastresult("Get#2")))
 
 //@ func putCryptoKeys
-//@   assert-at call Put#1 public-crypto-key-ciphertext-under-cpub: arg1 == cryptoPubKeyName && arg2 == pubKeyEncrypted
-//@   assert-at call Put#2 private-crypto-key-ciphertext-under-cpriv: arg1 == cryptoPrivKeyName && arg2 == privKeyEncrypted
+//@   assert-at call Put#1 public-crypto-key-ciphertext-under-cpub: arg1 == cryptoPubKeyName && arg2 == old(pubKeyEncrypted)
+//@   assert-at call Put#2 private-crypto-key-ciphertext-under-cpriv: arg1 == cryptoPrivKeyName && arg2 == old(privKeyEncrypted)
 //@ func fetchCryptoKeys
 //@   assert-at call Get#1 public-crypto-key-ciphertext-from-cpub: arg1 == cryptoPubKeyName
 //@   assert-at call Get#2 private-crypto-key-ciphertext-from-cpriv: arg1 == cryptoPrivKeyName
 //@   assert-at return#-1 public-then-private-as-stored: sameBytes(result0, lastresult("Get#1")) && (lastresult("Get#2") != nil ==> sameBytes(result1, lastresult("Get#2")))
 
 //@ func putAccountUsage
-//@   assert-at call Put account-number-under-account: arg1 == accountUsageName && len(arg2) == 4 && le32(arg2) == account
+//@   assert-at call Put account-number-under-account: arg1 == accountUsageName && len(arg2) == 4 && le32(arg2) == old(account)
 //@ func fetchAccountUsage
 //@   assert-at call Get account-number-from-account: arg1 == accountUsageName
 //@   assert-at return#-1 decoded-as-stored: result0 == le32(lastresult("Get"))
 
 //@ func putCoinType
-//@   assert-at call Put coin-type-under-coinType: arg1 == coinTypeName && len(arg2) == 4 && le32(arg2) == coin
+//@   assert-at call Put coin-type-under-coinType: arg1 == coinTypeName && len(arg2) == 4 && le32(arg2) == old(coin)
 //@ func fetchCoinType
 //@   assert-at call Get coin-type-from-coinType: arg1 == coinTypeName
 //@   assert-at return#-1 decoded-as-stored: result0 == le32(lastresult("Get"))
 
 //@ func putRemark
-//@   assert-at call Put remark-under-remark: arg1 == remarkName && arg2 == remark
+//@   assert-at call Put remark-under-remark: arg1 == remarkName && arg2 == old(remark)
 //@ func fetchRemark
 //@   assert-at call Get remark-from-remark: arg1 == remarkName
 //@   assert-at return#-1 as-stored: result0 == lastresult("Get", 0)
@@ -53,8 +53,8 @@ package keystore
 //@   assert-at call Delete remark-slot-deleted: arg1 == remarkName
 
 //@ func putBranchPubKeys
-//@   assert-at call Put#1 external-branch-key-under-exbPubKey: arg1 == externalBranchPubKeyName && arg2 == encryptedExternalKey
-//@   assert-at call Put#2 internal-branch-key-under-inbPubKey: arg1 == internalBranchPubKeyName && arg2 == encryptedInternalKey
+//@   assert-at call Put#1 external-branch-key-under-exbPubKey: arg1 == externalBranchPubKeyName && arg2 == old(encryptedExternalKey)
+//@   assert-at call Put#2 internal-branch-key-under-inbPubKey: arg1 == internalBranchPubKeyName && arg2 == old(encryptedInternalKey)
 //@ func fetchBranchPubKeys
 //@   assert-at call Get#1 external-branch-key-from-exbPubKey: arg1 == externalBranchPubKeyName
 //@   assert-at call Get#2 internal-branch-key-from-inbPubKey: arg1 == internalBranchPubKeyName
@@ -120,3 +120,10 @@ package keystore
 
 //@ func (*KeystoreManagerForPoC).ChangePubPassphrase
 //@   assert-at return acknowledged-change-is-in-force: result == nil ==> kmc.pubPassphrase == newPubPass
+
+// ---- C02: a passphrase change that is acknowledged has re-keyed every keystore in the store (the transaction body
+// returns nil only after its loop has visited all of them), so a restart finds all of them under the new passphrase
+//@ func (*KeystoreManagerForPoC).ChangePubPassphrase$1
+//@   assert-at return success-only-after-every-keystore-was-rekeyed-in-the-store: result == nil ==> (forall k string :: has(kmc.managedKeystores, k) ==> visited(k))
+//@ func (*KeystoreManagerForPoC).ChangePrivPassphrase$1
+//@   assert-at return success-only-after-every-keystore-was-rekeyed-in-the-store: result == nil ==> (forall k string :: has(kmc.managedKeystores, k) ==> visited(k))
